@@ -168,6 +168,7 @@ pub fn run_index(a: &WorkerArgs, env: &GenEnv, i: u64) -> Value {
     let mut execs = 0u64;
     let mut ref_steps = 0u64;
     let mut digest = 0u64;
+    let mut artefacts: Vec<Value> = Vec::new();
     let n = checks.items.len();
     for (j, ch) in checks.items.iter().enumerate() {
         if a.trace {
@@ -184,6 +185,9 @@ pub fn run_index(a: &WorkerArgs, env: &GenEnv, i: u64) -> Value {
         if v.nontrivial {
             nontrivial.push(h);
         }
+        if let Some(a) = &v.artefact {
+            artefacts.push(json!([format!("{:016x}", h), a, ch.to_json()]));
+        }
         if let Some(class) = &v.class {
             violations.push(json!({"check": ch.to_json(), "class": class, "at": v.at, "detail": v.detail, "index_in_run": j}));
         }
@@ -198,6 +202,7 @@ pub fn run_index(a: &WorkerArgs, env: &GenEnv, i: u64) -> Value {
         "stats": stats,
         "violations": violations,
         "digest": format!("{:016x}", digest),
+        "artefacts": artefacts,
         "sample": sample,
     })
 }
